@@ -29,6 +29,7 @@ fn judge(prop: &str, spec: &PipeSpec, w: &crate::gen::genome::Workload, run: pip
     r.nontrivial = run.tasks >= 2 && run.preemptions >= 1;
     r.count("steps_total", run.steps);
     r.max("max_steps_seen", run.steps);
+    r.max("max_steps_without_progress_event", run.max_gap);
     r.max("max_tasks", run.tasks as u64);
     r.count(&format!("sched.{}", spec.sched.name()), 1);
     r.count(if spec.api.is_some() { "driver.library_api" } else if spec.cfg.single_file { "mode.single_file" } else { "mode.multi_file" }, 1);
